@@ -116,6 +116,31 @@ pub proof fn lemma_p_hash_prefix(d: MessageDigest, secret: Seq<u8>, seed: Seq<u8
         assert(spec_p_hash(d, secret, seed, m).subrange(0, pn.len() as int) =~= pm1.subrange(0, pn.len() as int));
     }
 }
+// a PRF run for a longer total, cut at [a, b), is the PRF run for length b - a at offset a (the P_hash stream does not depend on
+// how much of it is asked for) — lets the proof go through whether the three keys come from three runs or from one run cut up
+pub proof fn lemma_p_sha_prefix(d: MessageDigest, secret: Seq<u8>, seed: Seq<u8>, n: nat, m: nat)
+    requires n <= m,
+    ensures spec_p_sha(d, secret, seed, m).subrange(0, n as int) == spec_p_sha(d, secret, seed, n),
+{
+    lemma_p_hash_len(d, secret, seed, n);
+    lemma_p_hash_len(d, secret, seed, m);
+    lemma_p_hash_prefix(d, secret, seed, n, m);
+    assert(n * spec_digest_len(d) >= n) by (nonlinear_arith) requires spec_digest_len(d) >= 1;
+    assert(m * spec_digest_len(d) >= m) by (nonlinear_arith) requires spec_digest_len(d) >= 1;
+    let pn = spec_p_hash(d, secret, seed, n);
+    let pm = spec_p_hash(d, secret, seed, m);
+    assert(pn == pm.subrange(0, pn.len() as int));
+    assert(spec_p_sha(d, secret, seed, m).subrange(0, n as int) =~= spec_p_sha(d, secret, seed, n));
+}
+pub broadcast proof fn lemma_prf_split(d: MessageDigest, secret: Seq<u8>, seed: Seq<u8>, total: nat, a: int, b: int)
+    requires 0 <= a <= b <= total,
+    ensures #[trigger] spec_prf(d, secret, seed, total, 0).subrange(a, b) == spec_prf(d, secret, seed, (b - a) as nat, a as nat),
+{
+    lemma_p_sha_prefix(d, secret, seed, b as nat, total);
+    lemma_p_hash_len(d, secret, seed, total);
+    assert(total * spec_digest_len(d) >= total) by (nonlinear_arith) requires spec_digest_len(d) >= 1;
+    assert(spec_prf(d, secret, seed, total, 0).subrange(a, b) =~= spec_prf(d, secret, seed, (b - a) as nat, a as nat));
+}
 '''
 
 SPEC = {
@@ -255,6 +280,7 @@ def build(manifest):
 
     fns = {n: splice_contract(clean_fn(sp.impl_fn(r'^impl SecurityPolicy \{', n)), SPEC[n][1], SPEC[n][0])
            for n in ['derived_signature_key_size', 'prf', 'make_secure_channel_keys']}
+    fns['make_secure_channel_keys'] = splice_body_start(fns['make_secure_channel_keys'], '        broadcast use lemma_prf_split;')
     fns['prf'] = fns['prf'].replace('openssl_hash::MessageDigest', 'MessageDigest')
     fns['prf'] = re.sub(r'^(\s*)fn prf', r'\1pub fn prf', fns['prf'], count=1)
     derive = splice_contract(clean_fn(sc.impl_fn(r'^impl SecureChannel \{', 'derive_keys')), SPEC['derive_keys'][1], None)
